@@ -179,12 +179,13 @@ def write_lines(path, lines):
         f.write("\n".join(lines) + "\n")
 
 
-def run_go(script_path, out_path, timeout=600):
+def run_go(script_path, out_path, timeout=600, binary=None):
     env = goenv()
     env.setdefault("GOMEMLIMIT", "6GiB")
+    env["GORACE"] = "halt_on_error=1"      # (race-detector builds only) stop at the racy line instead of at exit
     with open(script_path) as fin, open(out_path, "w") as fout:
         try:
-            p = subprocess.run([HBIN], stdin=fin, stdout=fout, stderr=subprocess.PIPE, env=env, timeout=timeout)
+            p = subprocess.run([binary or HBIN], stdin=fin, stdout=fout, stderr=subprocess.PIPE, env=env, timeout=timeout)
             return p.returncode, p.stderr.decode(errors="replace")[-2000:]
         except subprocess.TimeoutExpired:
             return -9, "timeout"
@@ -207,7 +208,7 @@ _ctr = [0]
 _ctr_lock = __import__("threading").Lock()
 
 
-def execute(lines, tag):
+def execute(lines, tag, binary=None):
     """run both executors; returns (mismatches, go_lines_count, crash_info)"""
     os.makedirs(WORK, exist_ok=True)
     with _ctr_lock:
@@ -216,7 +217,7 @@ def execute(lines, tag):
     sp = os.path.join(WORK, "%s_%d_%d.txt" % (tag, os.getpid(), k))
     gp = os.path.join(WORK, "%s_%d_%d.go" % (tag, os.getpid(), k))
     write_lines(sp, lines)
-    rc, err = run_go(sp, gp)
+    rc, err = run_go(sp, gp, binary=binary)
     crash = None
     nout = sum(1 for _ in open(gp))
     if rc != 0 or nout < len(lines):
@@ -351,15 +352,38 @@ def check_property(pid, tier, seed, replay_only=None):
         for sd in seeds:
             jobs.append((suite, sc, sd))
 
+    race_bin = None
+    if tier == "thorough" and P.get("race_suites"):
+        # the same suites once more through an executor built with the Go race detector: a report makes the process exit
+        # with status 66, which shows up as a crash attributed to the line being executed
+        race_bin = os.path.join(HARNESS, "bin", "harness-race")
+        cmd = ["go", "build", "-race", "-tags", "verif", "-o", race_bin, "."]
+        if REPO != "/repo":
+            cmd = ["go", "build", "-race", "-modfile", os.path.join(HARNESS, "alt.mod"), "-tags", "verif", "-o", race_bin, "."]
+        r = run(cmd, cwd=HARNESS, env=goenv(), timeout=900)
+        if r.returncode != 0:
+            race_bin = None
+            info["race_build_error"] = r.stdout[-500:]
+        else:
+            for (suite, scale) in P["race_suites"]:
+                for sd in range(seed, seed + 3):
+                    jobs.append(("race:" + suite, scale, sd))
+
     def run_job(job):
         suite, sc, sd = job
+        binary = None
+        if suite.startswith("race:"):
+            binary = race_bin
+            suite_gen = suite[5:]
+        else:
+            suite_gen = suite
         if suite.startswith("corpus:"):
             with open(os.path.join(ROOT, suite[7:])) as f:
                 lines = [l.rstrip("\n") for l in f if l.strip() and not l.startswith("#")]
             hist = {"corpus:script": 1}
         else:
-            lines, hist = gen.generate(suite, sd, sc, tier)
-        mism, nout, crash = execute(lines, "%s_%s_%d" % (pid, re.sub(r"[^A-Za-z0-9]+", "_", suite)[-40:], sd))
+            lines, hist = gen.generate(suite_gen, sd, sc, tier)
+        mism, nout, crash = execute(lines, "%s_%s_%d" % (pid, re.sub(r"[^A-Za-z0-9]+", "_", suite)[-40:], sd), binary=binary)
         out = {"suite": suite, "seed": sd, "lines": lines, "hist": hist, "nout": nout, "crash": crash, "foreign": [], "viol": None,
                "known": []}
         for mm in mism:
